@@ -189,7 +189,7 @@ let step dt (impl_step : string) (t : z mten) (s : sstate) (op : string) : stepr
       (if t.mt_old <> None then "retranspose" else if t.mt_view then "view" else "")
   | "transpose" ->
     change (k_transpose is_str t) s false (if is_str then "string" else if t.mt_view then "view" else "")
-  | "slice" ->
+  | "slice" | "slinto" ->
     let sls = Prog.parse_slices f.(1) in
     let valid = slices_valid s.sh sls in
     let s' = if valid then
